@@ -22,5 +22,18 @@ claim("C14", "typestate over *exec.Cmd in SSA + def-use pairing of streams and k
       "Decides: the two pipes of one Cmd are never drained sequentially in the waiting goroutine; Wait dominates success returns and follows "
       "reads; return-value/stdout/stderr derive from Wait/stdout/stderr respectively; empty command refused before indexing. Does not decide timing "
       "or signal exits.", "4.14")
-for i in [2,3,4,7,10,11,12,13,15,16,17,18,19,20]:
+claim("C02", "SSA guarded-store analysis (dominance facts keyed by value identity) + branch normal form + map-order analysis + error-flow",
+      "Decides: a link is stored in the verified map only under a successful VerifySignature with layout.Keys[id] for an id of the current step's "
+      "PubKeys equal to the map key, or with the link's own certificate after a successful CheckCertConstraints of the current step and with the "
+      "certificate's own key id as map key; threshold comparison fails iff len < threshold, for every step; loader keys files by their own signature "
+      "selected by file-name prefix and skips garbage. Does not decide the cryptography or constraint semantics.", "4.2")
+claim("C10", "map-order independence analysis (A3) + interprocedural effects/alias analysis (A4) + hidden-input reachability",
+      "Decides: no range over a Go map on the verification paths leaks iteration order (loop-carried state, early element exit, unsorted accumulation, "
+      "insertion into the ranged map); no write through memory reachable from the entry points' parameters; time/env/randomness only in the expiry check; "
+      "no mutable package state. Does not decide determinism of the file system, commands or crypto/x509.", "4.10")
+claim("C16", "global-write analysis over SSA (package-level state, process-global mutators, shared results)",
+      "Decides a sufficient structural condition: no package-level variable of in_toto/internal/spiffe is written or written through outside init, no "
+      "process-global mutators are called, dependency globals reached are read-only, no exported function returns package-level memory. Does not "
+      "decide races inside the runtime/stdlib or on shared arguments.", "4.16")
+for i in [3,4,7,11,12,13,15,17,18,19,20]:
     na("C%02d" % i, "check under construction in this commit; see DESIGN.md section 4 for the planned structural clauses")
